@@ -204,12 +204,13 @@ CHECKS = {
                  "(table row fetched inside an index scan callback). Distinct = fingerprint of the database spec."),
         "assumptions": ["system libsqlite3 (3.40.1) writes the SQLite-built files and validates builder images before a report"],
         "min_nontrivial": {"quick": 60, "thorough": 1000},
-        "required_classes": ["builder:depth=2", "builder:depth=3", "sqlite-built", "faults-on-operations-with-nested-lookups", "lock-failure:raw-shared-range", "lock-failure:sqlite-exclusive", "inconsistent:entries-cut-short=true"],
+        "required_classes": ["builder:depth=2", "builder:depth=3", "sqlite-built", "faults-on-operations-with-nested-lookups", "lock-failure:raw-shared-range", "lock-failure:sqlite-exclusive", "inconsistent:entries-cut-short=true", "damaged:alias=true", "damaged:through-indexes=true", "damaged:rows-in-front=true"],
         "timeout": {"quick": 300, "thorough": 1500},
         "jobs": [
             job("builder", "c12", ["TestC12Builder"], 150, 2500, 2, 8),
             job("sqlite", "c12", ["TestC12SQLite"], 60, 1000, 2, 6),
             job("inconsistent", "c12", ["TestC12Inconsistent"], 400, 8000, 2, 8),
+            job("damaged", "c12", ["TestC12DamagedRecord"], 400, 8000, 1, 4),
             job("lock", "c12", ["TestC12LockFailure"], 60, 1200, 1, 4),
         ],
     },
